@@ -283,7 +283,7 @@ def Dead (p : ProxyS) : Prop :=
 theorem Dead.unregistered {p : ProxyS} (h : Dead p) : p.mw.registered = false := by
   simp [MuxW.registered, h.2.2.1, h.2.2.2.1]
 
-theorem srcStar_bufEmpty {c : Nat} {a a' : SrcV} (h : Star (SrcStep c) a a') (hev : a.ever = true)
+theorem srcStar_bufEmpty {c : Nat} {k : Bool} {a a' : SrcV} (h : Star (SrcStep c k) a a') (hev : a.ever = true)
     (hr : a.shutR = true) (hb : a.buf = []) : a'.ever = true ∧ a'.shutR = true ∧ a'.buf = [] := by
   induction h with
   | refl => exact ⟨hev, hr, hb⟩
@@ -296,12 +296,12 @@ theorem srcStar_bufEmpty {c : Nat} {a a' : SrcV} (h : Star (SrcStep c) a a') (he
       have := (List.append_eq_nil_iff.mp hb'.symm)
       exact ⟨i0, i1, this.2⟩
     | eof hp hb' hr' hw => exact ⟨i0, i1, i2⟩
-    | stopFrame hp => exact ⟨i0, i1, i2⟩
+    | stopFrame hp hs => exact ⟨i0, i1, i2⟩
     | foreign fr hf => exact ⟨i0, i1, i2⟩
-    | discard hp => exact ⟨i0, rfl, rfl⟩
-    | flags r w hr' hw => exact ⟨i0, hr' i1, i2⟩
-    | remove hp => exact ⟨i0, i1, rfl⟩
-    | create he r => rw [i0] at he; cases he
+    | discard hp hw' => exact ⟨i0, rfl, rfl⟩
+    | flags r w os hr' hw hos hk => exact ⟨i0, hr' i1, i2⟩
+    | remove hp hb' => exact ⟨i0, i1, rfl⟩
+    | create he r os hos => rw [i0] at he; cases he
 
 theorem sinkStar_bufEmpty {b b' : SinkV} (h : Star SinkStep b b') (hb : b.buf = []) : b'.buf = [] := by
   induction h with
